@@ -221,7 +221,89 @@ rules:
       config: {user_id: x, password: y}
     - authorizer: deny
       if: "Request.Method == 'GET'"
-`}
+`, c19Overrides}
+
+// c19Overrides: one rule per mechanism with EVERY option its WithConfig accepts, so that the
+// type confusion of every node reaches every decoder and decode hook of the real mechanisms.
+const c19Overrides = `
+version: "1alpha4"
+rules:
+- id: o-jwt
+  match: {routes: [{path: /o1}]}
+  forward_to: {host: "up:80"}
+  execute:
+    - authenticator: jwt
+      config:
+        assertions:
+          issuers: [foo]
+          audience: [a, b]
+          scopes: [s1, s2]
+          allowed_algorithms: [ES256, PS256]
+          validity_leeway: 5s
+        cache_ttl: 5s
+        allow_fallback_on_error: true
+- id: o-intro
+  match: {routes: [{path: /o2}]}
+  forward_to: {host: "up:80"}
+  execute:
+    - authenticator: intro
+      config:
+        assertions:
+          issuers: [foo]
+          audience: [a]
+          scopes: {matching_strategy: wildcard, values: [s1, "s2:*"]}
+          allowed_algorithms: [ES256]
+          validity_leeway: 1s
+        cache_ttl: 5s
+        allow_fallback_on_error: false
+- id: o-rest
+  match: {routes: [{path: /o3}]}
+  forward_to: {host: "up:80"}
+  execute:
+    - authenticator: gen
+      config: {cache_ttl: 5s, allow_fallback_on_error: true}
+    - authenticator: basic
+      config: {user_id: a, password: b, allow_fallback_on_error: true}
+    - authenticator: anon
+      config: {subject: anon}
+    - authorizer: cel
+      config:
+        expressions: [{expression: "1 == 1", message: m}]
+    - authorizer: remote
+      config:
+        payload: "y"
+        values: {a: b, c: "{{ .Subject.ID }}"}
+        expressions: [{expression: "true", message: n}]
+        forward_response_headers_to_upstream: [x, y]
+        cache_ttl: 1s
+    - contextualizer: ctx
+      config:
+        payload: "z"
+        values: {a: b}
+        forward_headers: [a]
+        forward_cookies: [b]
+        cache_ttl: 2s
+        continue_pipeline_on_error: true
+    - finalizer: hdr
+      config: {headers: {a: b, c: "{{ .Subject.ID }}"}}
+    - finalizer: cookie
+      config: {cookies: {a: b}}
+    - finalizer: jwtfin
+      config: {ttl: 10s, claims: "{}"}
+    - finalizer: cc
+      config: {scopes: [a, b], header: {name: X, scheme: Y}, cache_ttl: 3s}
+  on_error:
+    - error_handler: www
+      config: {realm: bar}
+`
+
+// option names of all mechanisms, injected with values of every kind where they are absent
+var c19OptionNames = []string{
+	"assertions", "scopes", "issuers", "audience", "allowed_algorithms", "validity_leeway", "cache_ttl", "allow_fallback_on_error",
+	"user_id", "password", "subject", "payload", "expressions", "values", "forward_response_headers_to_upstream", "forward_headers",
+	"forward_cookies", "continue_pipeline_on_error", "headers", "cookies", "ttl", "claims", "header", "realm", "matching_strategy",
+	"trust_store", "jwt_source", "token_source", "endpoint", "identity_info_endpoint", "jwks_endpoint", "metadata_endpoint", "to", "if",
+}
 
 // ---- generic value trees ------------------------------------------------
 
@@ -301,6 +383,19 @@ func c19Clone(v any) any {
 	return v
 }
 
+func c19Get(root any, p []any) any {
+	for _, k := range p {
+		switch t := root.(type) {
+		case map[string]any:
+			root = t[k.(string)]
+		case []any:
+			root = t[k.(int)]
+		}
+	}
+
+	return root
+}
+
 func c19Set(root any, p []any, nv any) any {
 	if len(p) == 0 {
 		return nv
@@ -359,62 +454,48 @@ func c19Edit(root any, p []any, op int) any {
 	return root
 }
 
-func c19YV(v any, depth int) string {
-	switch t := v.(type) {
-	case nil:
-		return "YNull"
-	case bool:
-		return "(YBool " + vf.CoqBool(t) + ")"
-	case int:
-		return "(YInt " + vf.CoqZ(int64(t)) + ")"
-	case int64:
-		return "(YInt " + vf.CoqZ(t) + ")"
-	case uint64:
-		return "(YInt " + vf.CoqZ(int64(t)) + ")"
-	case float64:
-		return "YFloat"
-	case string:
-		return "(YStr " + vf.CoqStr(t) + ")"
-	case []any:
-		if depth <= 0 {
-			return "(YList [])"
+func c19Map(m map[string]any, depth int) string { return c19gen.YMapCoq(m, depth) }
+
+// c19StepMap renders a step: values cut at depth 1, except config.assertions.scopes, which is rendered in
+// full (the guard of C19-F9 looks at it)
+func c19StepMap(st map[string]any) string {
+	keyed := func(m map[string]any, special string, f func(v any) string) string {
+		keys := make([]string, 0, len(m))
+		for k := range m {
+			keys = append(keys, k)
 		}
 
-		items := make([]string, len(t))
-		for i := range t {
-			items[i] = c19YV(t[i], depth-1)
+		sort.Strings(keys)
+
+		items := make([]string, len(keys))
+		for i, k := range keys {
+			if k == special {
+				items[i] = vf.CoqPair(vf.CoqStr(k), f(m[k]))
+			} else {
+				items[i] = vf.CoqPair(vf.CoqStr(k), c19gen.YV(m[k], 0))
+			}
 		}
 
-		return "(YList " + vf.CoqList(items) + ")"
-	case map[string]any:
-		if depth <= 0 {
-			return "(YMap [])"
+		return vf.CoqList(items)
+	}
+
+	scopes := func(v any) string { return c19gen.YV(v, 3) }
+	assertions := func(v any) string {
+		if m, ok := v.(map[string]any); ok {
+			return "(YMap " + keyed(m, "scopes", scopes) + ")"
 		}
 
-		return "(YMap " + c19Map(t, depth-1) + ")"
-	case config.MechanismConfig:
-		return c19YV(map[string]any(t), depth)
-	case map[any]any:
-		return "YMapAny"
+		return c19gen.YV(v, 0)
+	}
+	conf := func(v any) string {
+		if m, ok := v.(map[string]any); ok {
+			return "(YMap " + keyed(m, "assertions", assertions) + ")"
+		}
+
+		return c19gen.YV(v, 0)
 	}
 
-	return "YFloat" // time.Time etc.: some non-string scalar
-}
-
-func c19Map(m map[string]any, depth int) string {
-	keys := make([]string, 0, len(m))
-	for k := range m {
-		keys = append(keys, k)
-	}
-
-	sort.Strings(keys)
-
-	items := make([]string, len(keys))
-	for i, k := range keys {
-		items[i] = vf.CoqPair(vf.CoqStr(k), c19YV(m[k], depth))
-	}
-
-	return vf.CoqList(items)
+	return keyed(st, "config", conf)
 }
 
 // ---- oracles ------------------------------------------------------------
@@ -553,7 +634,7 @@ func c19Steps(hf mechanisms.MechanismFactory, sts []config.MechanismConfig, eh b
 	for i, st := range sts {
 		mres, cel := c19StepOracle(hf, st, eh)
 		// the factory looks at the top level of a step only: deeper values are cut at depth 1
-		items[i] = vf.CoqApp("stp", c19Map(st, 1), mres, vf.CoqBool(cel))
+		items[i] = vf.CoqApp("stp", c19StepMap(st), mres, vf.CoqBool(cel))
 	}
 
 	return vf.CoqList(items)
@@ -787,6 +868,22 @@ func TestVerifC19Rules(t *testing.T) {
 		}
 	}
 
+	for _, wit := range []struct { // C19-F9 and its neighbours
+		p []any
+		v any
+	}{
+		{[]any{"rules", 0, "execute", 0, "config", "assertions", "scopes"}, []any{1}},
+		{[]any{"rules", 0, "execute", 0, "config", "assertions", "scopes"}, map[string]any{"matching_strategy": 1, "values": []any{"a"}}},
+		{[]any{"rules", 0, "execute", 0, "config", "assertions", "scopes"}, map[string]any{"values": "a"}},
+		{[]any{"rules", 1, "execute", 0, "config", "assertions", "scopes", "values"}, []any{"a", nil}},
+		{[]any{"rules", 0, "execute", 0, "config", "assertions"}, map[any]any{"issuers": []any{"x"}, 1: "foo"}}, // seeded C19-2
+		{[]any{"rules", 0, "execute", 0, "config", "assertions", "scopes"}, map[string]any{"matching_strategy": "nope", "values": []any{"a"}}},
+	} {
+		if text, ok := c19Marshal(c19Set(c19Clone(bases[3]), wit.p, wit.v)); ok {
+			add(3, fmt.Sprint("witness ", wit.p, "<-", wit.v), text)
+		}
+	}
+
 	// type confusion of every node
 	for bi, base := range bases {
 		var ps [][]any
@@ -795,7 +892,14 @@ func TestVerifC19Rules(t *testing.T) {
 
 		for pi, p := range ps {
 			for k := 0; k < c19Kinds; k++ {
-				if quick && bi == 0 && (pi+k)%6 != 0 { // the large rule set: a sixth of the product per quick run
+				underConfig := false
+				for _, e := range p {
+					underConfig = underConfig || e == "config"
+				}
+
+				// the two large rule sets: a part of the product per quick run, but below `config` always the
+				// replacement by an int and by a map with a non-string key
+				if quick && (bi == 0 || bi == 3) && (pi+k)%(6-bi) != 0 && !(underConfig && (k == 1 || k == 11)) {
 					continue
 				}
 
@@ -804,10 +908,50 @@ func TestVerifC19Rules(t *testing.T) {
 				}
 			}
 
-			if !quick || bi > 1 {
+			if !quick || bi == 2 {
 				for op := 0; op < 3; op++ {
 					if text, ok := c19Marshal(c19Edit(c19Clone(base), p, op)); ok {
 						add(bi, fmt.Sprint(p, " edit", op), text)
+					}
+				}
+			}
+		}
+	}
+
+	// option injection: every option name of any mechanism, with a value of every kind, into every map under `config`
+	// of the override rule set (quick: a sample)
+	{
+		var ps [][]any
+
+		c19Paths(bases[3], nil, &ps)
+
+		n := 0
+
+		for _, p := range ps {
+			under := false
+			for _, e := range p {
+				under = under || e == "config"
+			}
+
+			node := c19Get(bases[3], p)
+			if _, isMap := node.(map[string]any); !under || !isMap {
+				continue
+			}
+
+			for _, name := range c19OptionNames {
+				if _, has := node.(map[string]any)[name]; has {
+					continue
+				}
+
+				for k := 0; k < c19Kinds; k++ {
+					n++
+					if quick && n%9 != 0 {
+						continue
+					}
+
+					tree := c19Set(c19Clone(bases[3]), append(append([]any{}, p...), name), c19Repl(k))
+					if text, ok := c19Marshal(tree); ok {
+						add(3, fmt.Sprint(p, " inject ", name, "<-kind", k), text)
 					}
 				}
 			}
@@ -854,7 +998,7 @@ func TestVerifC19Rules(t *testing.T) {
 	for bi, b := range c19Bases {
 		step := 1
 		if quick {
-			step = []int{23, 5, 3}[bi]
+			step = []int{23, 5, 3, 29}[bi]
 		}
 
 		for off := 0; off <= len(b); off += step {
